@@ -556,13 +556,67 @@ func (it *symStrIter) next(p *Path) Tuple {
 	if it.i >= len(it.s.B) {
 		return Tuple{FalseT, nil, nil}
 	}
-	b := it.s.B[it.i]
-	if !p.decide(Cmp(OpUlt, b, ConstT(8, 0x80))) {
-		engErr("range over symbolic string with non-ASCII byte (assume ASCII in the harness)")
-	}
+	r, size := p.decodeRuneSym(it.s.B[it.i:])
 	k := it.i
-	it.i++
-	return Tuple{TrueT, mkInt(int64(k)), ZExt(b, 32)}
+	it.i += size
+	return Tuple{TrueT, mkInt(int64(k)), r}
+}
+
+// decodeRuneSym is utf8.DecodeRune over symbolic bytes: it forks on the
+// encoding class of the lead byte and on the validity of the continuation
+// bytes, and returns the rune as a 32-bit term.
+func (p *Path) decodeRuneSym(b []*Term) (*Term, int) {
+	bad := ConstT(32, 0xFFFD)
+	in := func(c *Term, lo, hi uint64) bool {
+		return p.decide(And(Cmp(OpUle, ConstT(8, lo), c), Cmp(OpUle, c, ConstT(8, hi))))
+	}
+	low6 := func(c *Term) *Term { return ZExt(Bin(OpBAnd, c, ConstT(8, 0x3F)), 32) }
+	b0 := b[0]
+	if p.decide(Cmp(OpUlt, b0, ConstT(8, 0x80))) {
+		return ZExt(b0, 32), 1
+	}
+	switch {
+	case in(b0, 0xC2, 0xDF):
+		if len(b) < 2 || !in(b[1], 0x80, 0xBF) {
+			return bad, 1
+		}
+		hi := Bin(OpShl, ZExt(Bin(OpBAnd, b0, ConstT(8, 0x1F)), 32), ConstT(32, 6))
+		return Bin(OpBOr, hi, low6(b[1])), 2
+	case in(b0, 0xE0, 0xEF):
+		if len(b) < 3 {
+			return bad, 1
+		}
+		lo1, hi1 := uint64(0x80), uint64(0xBF)
+		if p.decide(Eq(b0, ConstT(8, 0xE0))) {
+			lo1 = 0xA0
+		} else if p.decide(Eq(b0, ConstT(8, 0xED))) {
+			hi1 = 0x9F
+		}
+		if !in(b[1], lo1, hi1) || !in(b[2], 0x80, 0xBF) {
+			return bad, 1
+		}
+		r := Bin(OpShl, ZExt(Bin(OpBAnd, b0, ConstT(8, 0x0F)), 32), ConstT(32, 12))
+		r = Bin(OpBOr, r, Bin(OpShl, low6(b[1]), ConstT(32, 6)))
+		return Bin(OpBOr, r, low6(b[2])), 3
+	case in(b0, 0xF0, 0xF4):
+		if len(b) < 4 {
+			return bad, 1
+		}
+		lo1, hi1 := uint64(0x80), uint64(0xBF)
+		if p.decide(Eq(b0, ConstT(8, 0xF0))) {
+			lo1 = 0x90
+		} else if p.decide(Eq(b0, ConstT(8, 0xF4))) {
+			hi1 = 0x8F
+		}
+		if !in(b[1], lo1, hi1) || !in(b[2], 0x80, 0xBF) || !in(b[3], 0x80, 0xBF) {
+			return bad, 1
+		}
+		r := Bin(OpShl, ZExt(Bin(OpBAnd, b0, ConstT(8, 0x07)), 32), ConstT(32, 18))
+		r = Bin(OpBOr, r, Bin(OpShl, low6(b[1]), ConstT(32, 12)))
+		r = Bin(OpBOr, r, Bin(OpShl, low6(b[2]), ConstT(32, 6)))
+		return Bin(OpBOr, r, low6(b[3])), 4
+	}
+	return bad, 1
 }
 
 func (p *Path) rangeIter(fr *frame, x Value) iter {
